@@ -100,6 +100,28 @@ def plan(tier, seed):
     return {"items": items, "pristine_items": first, "meta": meta}
 
 
+def inherited_names(st, label, factory):
+    """The JSON name of a property is what its declaration says; a model that inherits the property without re-declaring
+    it reads the same member (the check's own source of truth for JSON names of inherited properties: the declaring class)."""
+    from statham.schema.elements.meta import ObjectMeta
+    from statham.serializers.orderer import get_object_classes
+
+    tree = factory()
+    roots = tree if isinstance(tree, tuple) else (tree,)
+    for cls in get_object_classes(*roots):
+        for base in cls.__mro__[1:]:
+            if not isinstance(base, ObjectMeta) or not getattr(base, "properties", None):
+                continue
+            for name, declared in base.properties.items():
+                mine = cls.properties.get(name)
+                if mine is None or mine.element is not declared.element:
+                    continue  # removed or re-declared
+                want = declared.source if declared.source is not None else name
+                got = mine.source if mine.source is not None else name
+                if got != want:
+                    st.violation("inherited-property-reads-another-member", "%s: %s.%s is inherited from %s where it stands for the member %r; in %s it stands for %r" % (label, cls.__name__, name, base.__name__, want, cls.__name__, got), {"tree": label, "class": cls.__name__, "attribute": name})
+
+
 def work(item):
     st = runner.Stats()
     if item[0] == "dsl":
@@ -107,6 +129,7 @@ def work(item):
         from mc.gen import values as VAL
 
         for label, factory in E.all_trees(item[3])[item[1]:item[2]]:
+            inherited_names(st, label, factory)
             visit_dsl(st, label, factory, VAL.V + VAL.V_OBJ)
         return st
     for sid, schema, values, ntrans in lattice.expand(item):
